@@ -324,6 +324,43 @@ fn unicode_case(cx: &mut CaseCtx, input: Input) -> CaseResult {
     Ok(())
 }
 
+// ---- definitions named like primitives (escaped identifiers) ---------------------------------------
+
+const PRIMITIVES: [&str; 16] = [
+    "bool", "int8", "uint8", "int16", "uint16", "int32", "uint32", "varint32", "varuint32", "int64", "uint64", "varint62", "varuint62", "float32", "float64",
+    "string",
+];
+pub const PRIMITIVE_NAMES_TOTAL: u64 = 16 * 6 * 3;
+
+/// primitive x kind of definition (or module) carrying its name x {no module, module M, module named
+/// like the primitive}; the keyword itself is used before and after (F-01i).
+fn primitive_names_case(cx: &mut CaseCtx, input: Input) -> CaseResult {
+    let idx = input.index() as usize;
+    let (p, kind, scope) = (PRIMITIVES[idx % 16], (idx / 16) % 6, idx / 96);
+    let def = match kind {
+        0 => format!("struct \\{p} {{ x: {p} }}"),
+        1 => format!("enum \\{p} {{ A, B }}"),
+        2 => format!("interface \\{p} {{ op(a: {p}) -> {p} }}"),
+        3 => format!("custom \\{p}"),
+        4 => format!("typealias \\{p} = Sequence<{p}>"),
+        _ => format!("struct Other {{ y: \\{p} }}"),
+    };
+    let head = match scope {
+        0 => String::new(),
+        1 => "module M\n".to_owned(),
+        _ => format!("module \\{p}\n"),
+    };
+    let text = format!("{head}struct Before {{ a: {p} }}\n{def}\nstruct After {{ b: {p}, c: Sequence<{p}?> }}\n");
+    cx.nontrivial = true;
+    cx.label("definition-named-like-a-primitive");
+    cx.label_if(scope == 0, "definition-named-like-a-primitive-at-global-scope");
+    cx.sample_with(|| json!({"files": [text]}));
+    let (_w, e) = pipeline(&[text.clone()], &SliceOptions::default())?;
+    // without a module declaration the file is malformed and must say so
+    check!(scope != 0 || e > 0, "module-less-file-accepted", "{text}");
+    Ok(())
+}
+
 // ---- raw source text (what a byte-level fuzzer mutates best) -----------------------------------------
 
 /// The input bytes are the source itself: files separated by U+001E, decoded lossily.  Random
@@ -585,6 +622,7 @@ impl Check for C01 {
         let corpus = seed_corpus();
         vec![
             Family::enumerate("growth", GROWTH_SHAPES, 1, growth_probe),
+            Family::enumerate("primitive-names", PRIMITIVE_NAMES_TOTAL, 1, primitive_names_case),
             Family::enumerate("types", 22 * 14 * 2 * 2, 1, types_case),
             // (d) containment / alias / inheritance cycles: the C05 enumerators, judged here only for
             // "a verdict within the bound" (a hang is seen by the watchdog)
